@@ -126,16 +126,27 @@ def resultStep (c : Cfg) (s : St) (r : Res) (e : REnv) : St × List Notif × Boo
     let q := notifyOnResult c s.core p.1 s.sup s.sbs e
     ({ core := p.1, sup := q.1, sbs := q.2.1 }, q.2.2, true)
 
-/-- What `FireSuppressedNotifications` reads from its surroundings. -/
+/-- What `FireSuppressedNotifications` reads from its surroundings.  Times in microseconds (integers). -/
 structure FEnv where
   paused : Bool
   enabled : Bool            -- enable_notifications
-  stateSuppressed : Bool    -- NotificationReasonSuppressed(Problem): unreachable ∨ downtime ∨ acknowledged
+  stateSuppressed : Bool    -- the property's suppression reasons: unreachable ∨ downtime ∨ acknowledged
   inDowntime : Bool
   isFlapping : Bool
-  likelySoon : Bool         -- IsLikelyToBeCheckedSoon()
+  activeChecks : Bool       -- enable_active_checks
+  interval : Int            -- check_interval
+  nextIn : Int              -- next_check − Utility::GetTime()
   parentRecent : Bool       -- a parent / the host recovered since the last result
   deriving Repr, DecidableEq
+
+/-- checkable-notification.cpp:331-338: `threshold = check_interval − 10`, limited to 0 … 60 s. -/
+def soonThreshold (interval : Int) : Int :=
+  let t := interval - 10000000
+  if t > 60000000 then 60000000 else if t < 0 then 0 else t
+
+/-- `Checkable::IsLikelyToBeCheckedSoon()`, checkable-notification.cpp:325-341. -/
+def FEnv.likelySoon (e : FEnv) : Bool :=
+  if !e.activeChecks then false else decide (e.nextIn ≤ soonThreshold e.interval)
 
 /-- Do the stashed state bits get processed now?  checkable-notification.cpp:190 -/
 def releaseNow (s : St) (e : FEnv) : Bool :=
@@ -169,5 +180,21 @@ def fireStep (c : Cfg) (s : St) (e : FEnv) : St × List Notif :=
     let sup' : Sup := { problem := s.sup.problem && !a.1, recovery := s.sup.recovery && !a.1,
                         flapStart := s.sup.flapStart && !fs.1, flapEnd := s.sup.flapEnd && !fe.1 }
     ({ s with sup := sup' }, a.2 ++ fs.2 ++ fe.2)
+
+/-- The handler runs while another thread processes a check result.  `FireSuppressedNotifications` reads
+    `suppressed_notifications` at checkable-notification.cpp:143 without a lock, requests the state
+    notification at :214 and subtracts `Problem|Recovery` from the *then current* value at :237-245;
+    a `ProcessCheckResult` in between sees the old bits as "pending" (checkable-check.cpp:506) and
+    stashes its own event, which the subtraction then clears unseen.  The schedule point is the
+    handler's request (when it requests nothing, or flapping bits are stashed, the result comes after
+    the handler).  Returns the new state, all requests in order, accepted?, interleaved? -/
+def fireResultStep (c : Cfg) (s : St) (ef : FEnv) (r : Res) (er : REnv) : St × List Notif × Bool × Bool :=
+  let f := fireStep c s ef
+  if s.sup.flapStart || s.sup.flapEnd || f.2.isEmpty then
+    let q := resultStep c f.1 r er
+    (q.1, f.2 ++ q.2.1, q.2.2, false)
+  else
+    let q := resultStep c s r er
+    ({ q.1 with sup := { q.1.sup with problem := false, recovery := false } }, f.2 ++ q.2.1, q.2.2, true)
 
 end Icinga.C02
